@@ -477,3 +477,27 @@ fire("C10", "bpe-empty-string-keeps-placeholder", "R10.6", E(MG, "bpe_encode_all
      "seeded r2_C09")
 silent("C09", "bpe-empty-string-explicit", E(MG, "bpe_encode_all", "        encodings[i] = bpe_encode(strings[i], code_list, max_char_code)\n", "        if len(strings[i]) > 0:\n            encodings[i] = bpe_encode(strings[i], code_list, max_char_code)\n        else:\n            encodings[i] = np.zeros(0, dtype=np.int64)\n"),
        "both arms store the slot")
+
+# --- C10: merge-loop cursors (from the mutation smoke test)
+fire("C10", "merge-cursor-nonstrict", "R10.7", E(DIST, "dense_union", "    while i1 < ind1.shape[0] and i2 < ind2.shape[0]:", "    while i1 < ind1.shape[0] and i2 <= ind2.shape[0]:"),
+     "the last iteration reads ind2[len(ind2)]")
+fire("C10", "merge-cursor-unbounded", "R10.7", E(DIST, "sparse_mul", "    while i1 < ind1.shape[0] and i2 < ind2.shape[0]:", "    while i1 < ind1.shape[0]:"),
+     "i2 runs past the shorter input")
+silent("C10", "merge-cursor-len", E(DIST, "sparse_sum", "    while i1 < ind1.shape[0] and i2 < ind2.shape[0]:", "    while len(ind2) > i2 and i1 < len(ind1):"),
+       "same bounds spelled with len() and the other way round")
+
+# --- C03: orientation dispatch evaluated, not pattern-matched (from the mutation smoke test)
+fire("C03", "orientation-test-negated", "R3.2", E(BASE, "BaseCooccurrenceVectorizer.__init__", '            elif w == "before":', '            elif w != "before":'),
+     "'after' takes the 'before' arm")
+silent("C03", "orientation-test-membership", E(BASE, "BaseCooccurrenceVectorizer.__init__", '            elif w == "before":', '            elif w in ("before",):'),
+       "the same dispatch written as a membership test")
+fire("C03", "radii-expansion-negated", "R3.8", E(BASE, "BaseCooccurrenceVectorizer.__init__", '            self._window_radii.append(radius)\n            if self.window_orientations[i] == "directional":', '            self._window_radii.append(radius)\n            if self.window_orientations[i] != "directional":'),
+     "a plain orientation gets two radii, a directional one only one")
+fire("C03", "kernel-args-expansion-dropped", "R3.8", E(BASE, "BaseCooccurrenceVectorizer.__init__", '                self._kernel_args.append(args)\n                if self.window_orientations[i] == "directional":\n                    self._kernel_args.append(args)\n', '                self._kernel_args.append(args)\n'),
+     "directional windows share one kernel-args entry: later windows shift", allow_error=True)
+
+# --- C01: CSR data / indices lockstep (from the mutation smoke test)
+fire("C01", "bpe-data-not-extended", "R1.2b", E(MG, "BytePairEncodingVectorizer.transform", "                data.extend([1 for i in range(len(row_indices))])\n", ""),
+     "indices grow, data does not: the constructor raises on every transform")
+silent("C01", "bpe-data-ones", E(MG, "BytePairEncodingVectorizer.transform", "                data.extend([1 for i in range(len(row_indices))])\n", "                data.extend([1] * len(row_indices))\n"),
+       "the same ones written as a repeated list")
